@@ -381,7 +381,9 @@ def check_direct_read(rep, a, graph, site, chain, dep_set, produced):
     m = re.match(r"ir::ty::TypeKind::(\w+)\.", site)
     if m:
         kinds = {m.group(1)} if kinds is None else (kinds & {m.group(1)} or {m.group(1)})
-    for opaque in (False, True):
+    # an item is opaque either because of what its type is ("type": every is_opaque impl says so) or because the user said so
+    # ("user": only Item::is_opaque knows)
+    for opaque in (False, "type", "user"):
         for kind in sorted(kinds) if kinds else [None]:
             world = {"opaque": opaque, "kind": kind}
             if not all(graph.reachable_under(cb, cn, world) for cb, cn in chain):
@@ -389,7 +391,7 @@ def check_direct_read(rep, a, graph, site, chain, dep_set, produced):
             prod = produced(world)
             kinds_for_site = {k for s, k in prod if s == site}
             ok = bool(kinds_for_site & dep_set)
-            key = "%s:read:%s:%s" % (a.name, site, "opaque" if opaque else "transparent")
+            key = "%s:read:%s:%s" % (a.name, site, {False: "transparent", "type": "opaque", "user": "opaque-by-user"}[opaque])
             if ok:
                 rep.ok(key, "", where)
             elif kinds_for_site:
